@@ -21,8 +21,6 @@ from geometry_tools import hyperbolic, GeometryError, lie, coxeter
 from geometry_tools.hyperbolic import Isometry
 
 KNOWN_ELLIPTIC = "C15-elliptic-repeated-eigenvalue"
-KNOWN_ORIGIN_WALL = "C15-subspace-wall-through-origin"
-KNOWN_UNSORTED_COMPLEX = "C15-unsorted-option-complex-eigenvectors"
 
 RULE = ("cases: dimension n = 2..4; conjugating isometry C = boost(direction, t in [0,2]) x "
         "diag(1, O), O a product of <= 2n Givens rotations and possibly a coordinate "
@@ -252,10 +250,6 @@ def body_reflection(case, ctx):
         # derives its normal from that sphere
         if any(abs(v[0]) <= 1e-12 * math.sqrt(v @ v) for v in vs):
             ctx.label("wall-through-origin")
-            if ctx.known(KNOWN_ORIGIN_WALL):
-                ctx.exclude(KNOWN_ORIGIN_WALL)
-                ctx.label("excluded:subspace-wall-through-origin")
-                return
     R = obj.reflection_across()
     ctx.check(isinstance(R, Isometry), "reflection_across returns an Isometry",
               got=type(R).__name__)
@@ -830,10 +824,6 @@ def body_unsorted(case, ctx):
         repeated = bool(np.any(np.diff(srt) < 1e-6)) and kind != "parabolic"
         if nonreal or repeated:
             ctx.label("complex-eigenvectors-possible")
-            if ctx.known(KNOWN_UNSORTED_COMPLEX):
-                ctx.exclude(KNOWN_UNSORTED_COMPLEX)
-                ctx.label("excluded:unsorted-complex-eigenvectors")
-                return
     T = conjugate(case, T0s, Cs)
     Mall = np.array(T.matrix)
     F = np.array(T.fixed_point(max_eigval=False).proj_data)
